@@ -47,6 +47,18 @@ Theorem c20_verification_has_no_memory : forall l c seq m,
 Proof. exact unauthentic_rejected_run. Qed.
 Print Assumptions c20_verification_has_no_memory.
 
+(* the optional signature.pub_key a client may attach is carried as data only: two
+   messages that differ in nothing but the attached key are treated alike *)
+Theorem c20_attached_key_ignored : forall st c seq m k,
+  let s1 := sess_req c seq (RSend m) st in
+  let s2 := sess_req c seq (RSend (with_pk m k)) st in
+  scalls s1 = scalls s2 /\ swoken s1 = swoken s2 /\ ses s1 = ses s2 /\ sessions s1 = sessions s2 /\
+  peers s1 = peers s2 /\ trk s1 = trk s2 /\
+  forall d, option_map m_tag (mb_recv (sbox s1 d)) = option_map m_tag (mb_recv (sbox s2 d)) /\
+            mb_recvSent (sbox s1 d) = mb_recvSent (sbox s2 d) /\ mb_gep (sbox s1 d) = mb_gep (sbox s2 d).
+Proof. exact attached_key_ignored. Qed.
+Print Assumptions c20_attached_key_ignored.
+
 (* messages (and acks/clears) for a session epoch newer than the server's are rejected *)
 Theorem c20_future_epoch_rejected : forall st c seq r,
   admissible st c r -> epoch_of st c < seq ->
@@ -94,16 +106,16 @@ Print Assumptions c20_first_request_must_be_init.
    current epoch, the partner's write loop delivers it *)
 Definition c20_demo : list action :=
   [SessStart 0 0 0 (RInit (Some 1)); SessStart 1 1 0 (RInit (Some 0));
-   SessReq 0 2 (RSend {| m_seqno := 7; m_tag := 1; m_ver := true; m_from := 0 |}); SessIter 1].
+   SessReq 0 2 (RSend {| m_seqno := 7; m_tag := 1; m_ver := true; m_from := 0; m_pk := 0 |}); SessIter 1].
 Example c20_nonvacuous :
   sc_out (scalls (run c20_demo) 1) =
-    [SOpened 2; SRecv {| m_seqno := 7; m_tag := 1; m_ver := true; m_from := 0 |}] /\
+    [SOpened 2; SRecv {| m_seqno := 7; m_tag := 1; m_ver := true; m_from := 0; m_pk := 0 |}] /\
   sc_dst (scalls (run c20_demo) 1) = 0.
 Proof. split; vm_compute; reflexivity. Qed.
 (* ... and the same message signed by peer 2 is not delivered but ends the call *)
 Example c20_nonvacuous_forged :
   let st := run [SessStart 0 0 0 (RInit (Some 1)); SessStart 1 1 0 (RInit (Some 0));
-                 SessReq 0 2 (RSend {| m_seqno := 7; m_tag := 1; m_ver := true; m_from := 2 |});
+                 SessReq 0 2 (RSend {| m_seqno := 7; m_tag := 1; m_ver := true; m_from := 2; m_pk := 0 |});
                  SessIter 1; SessEnd 0 false] in
   sc_out (scalls st 1) = [SOpened 2] /\ sc_st (scalls st 0) = Ended ERejected.
 Proof. split; vm_compute; reflexivity. Qed.
